@@ -112,6 +112,7 @@ def absorb(out, rep):
 
 def run(prop, tier, replay=None):
     out = common.Outcome(prop, tier)
+    out.is_replay = replay is not None
     exe, msg = build_harness()
     if exe is None:
         out.inconclusive.append(msg)
